@@ -101,7 +101,13 @@ async fn drive_session(mut session: Session, log: EvLog, start: tokio::time::Ins
             .filter(|l| l.to_ascii_lowercase().starts_with("route:"))
             .flat_map(|l| l.splitn(2, ':').nth(1).unwrap_or("").split(',').map(|x| x.trim().trim_matches(|c| c == '<' || c == '>').to_string()).collect::<Vec<_>>())
             .collect();
-        log.lock().push((next_seq(), now_ms(start), format!("probe:{}:uri={}/route={}", tag, r.line.uri.default_print_ctx(), routes.join("+")).replace(' ', "_")));
+        let to_tag = text
+            .split("\r\n")
+            .find(|l| l.to_ascii_lowercase().starts_with("to:"))
+            .and_then(|l| l.split(";tag=").nth(1))
+            .map(|t| t.split(';').next().unwrap_or("").to_string())
+            .unwrap_or("-".into());
+        log.lock().push((next_seq(), now_ms(start), format!("probe:{}:uri={}/route={}/totag={}", tag, r.line.uri.default_print_ctx(), routes.join("+"), to_tag).replace(' ', "_")));
     }
     loop {
         let ev = session.drive().await;
@@ -227,7 +233,12 @@ pub async fn run_case(case: Vec<String>) -> String {
     let clock = Clock::new();
     let start = clock.0;
     let wire: WireLog = Default::default();
-    let tp = TpHandle::new(MockTp::udp(wire.clone(), start));
+    let mock = MockTp::udp(wire.clone(), start);
+    if let Some(ms) = setup.split(';').find_map(|kv| kv.strip_prefix("linger2xx=")).and_then(|v| v.parse::<u64>().ok()) {
+        // the send of a 2xx to an INVITE returns only this long after the bytes are out (the peer's ACK can come meanwhile)
+        mock.linger_2xx_ms.store(ms, std::sync::atomic::Ordering::SeqCst);
+    }
+    let tp = TpHandle::new(mock);
     let source: SocketAddr = "10.9.9.9:5060".parse().unwrap();
     let log: EvLog = Default::default();
     let (itx, mut irx) = mpsc::unbounded_channel();
